@@ -7,3 +7,7 @@ import Scfg.Codec
 import Scfg.Model.Edit
 import Scfg.Model.EditSpec
 import Scfg.Model.Names
+import Scfg.Model.Queries
+import Scfg.Model.Iter
+import Scfg.Spec.GraphDefs
+import Scfg.Spec.IterSpec
